@@ -398,7 +398,7 @@ Lemma EntOk_side evl evl' g w w' e en en' sd nw m :
   (forall sd0 k0, pd evl sd0 k0 = true -> pd evl' sd0 k0 = true) ->
   (forall k ob, s_oid (gs en sd) = Some (ostr_k k) -> obj_at w sd k = Some ob ->
      (s_ex (gs en' sd) = ExTrashed -> ProvModel.o_exists ob = false) /\
-     (pd evl' sd k = true \/ x_lg (getx w' e sd) < maxchg en' \/ freshP (gs en' sd) ob) /\
+     (is_discarded (e_ign en) = false -> pd evl' sd k = true \/ x_lg (getx w' e sd) < maxchg en' \/ freshP (gs en' sd) ob) /\
      popt (s_path (gs en' sd)) (pstr (ProvModel.o_path ob)) /\
      (is_discarded (e_ign en) = false -> forall cs, g_get k (g_of g sd) = Some cs ->
         hopt (s_hash (gs en' sd)) cs /\ (s_path (gs en' sd) <> None -> s_hash (gs en' sd) <> None) /\
@@ -456,7 +456,7 @@ Proof.
       destruct F as [f1 f2 f3 f4 f5 f6 f7 f8 f10 f9]. rewrite negb_inv in f6, f7, f8, f10, f9.
       constructor; rewrite ?Pother, ?Pign, ?negb_inv, ?Poid, ?Pshash.
       * exact f1.
-      * destruct f2 as [X|[X|X]]; [left; auto|right; left; rewrite Hlgo; lia|right; right; exact X].
+      * intros Hd. destruct (f2 Hd) as [X|[X|X]]; [left; auto|right; left; rewrite Hlgo; lia|right; right; exact X].
       * exact f3.
       * exact f4.
       * exact f5.
